@@ -301,33 +301,50 @@ theorem legalAll_mem : ∀ {hps : List Hp} {y : List Val} {act : List Bool},
   | _ :: _, [], _, _, h => by simp [legalAll] at h
   | _ :: _, _ :: _, [], _, h => by simp [legalAll] at h
 
-theorem deactivate_mem {ne : NumEnv} {d : Decl} {x y : Config} (hw : d.wf = true)
-    (hx : dimsAll d.hps x = true) (h : deactivate ne d x = some y) : memSpace d y = true := by
+theorem deactivateCS_mem {ne : NumEnv} {d : Decl} {x y : Config} (hw : d.wf = true)
+    (hx : dimsAll d.hps x = true) (h : deactivateCS ne d x = .ok y) : memSpace d y = true := by
   have hw' : ∀ h ∈ d.hps, h.wf = true := by
     simpa [Decl.wf, List.all_eq_true] using hw
-  unfold deactivate at h
+  unfold deactivateCS at h
+  simp only at h
+  split at h
+  · cases h
+  · rename_i y1 hy1
+    split at h
+    · cases h
+    · split at h
+      · cases h
+      · rename_i y' hy'
+        split at h
+        · rename_i hl
+          split at h
+          · cases h
+          · rename_i hf
+            cases h
+            unfold memSpace
+            simp only [Bool.and_eq_true]
+            have ha1 := canonAll_almost hw' (dimsAll_almostAll hx) hy1
+            exact ⟨legalAll_mem (canonAll_almost hw' ha1 hy') hl, by simpa using hf⟩
+        · cases h
+
+theorem deactivateE_mem {ne : NumEnv} {d : Decl} {x y : Config} (hw : d.wf = true)
+    (hx : dimsAll d.hps x = true) (h : deactivateE ne d x = .ok y) : memSpace d y = true := by
+  unfold deactivateE at h
   split at h
   · rename_i hu
     cases h
     exact memSpace_unconstrained hu hx
-  · simp only at h
-    split at h
-    · cases h
-    · rename_i y1 hy1
-      split at h
-      · cases h
-      · split at h
-        · cases h
-        · rename_i y' hy'
-          split at h
-          · rename_i hv
-            cases h
-            simp only [Bool.and_eq_true] at hv
-            unfold memSpace
-            simp only [Bool.and_eq_true]
-            have ha1 := canonAll_almost hw' (dimsAll_almostAll hx) hy1
-            exact ⟨legalAll_mem (canonAll_almost hw' ha1 hy') hv.1, hv.2⟩
-          · cases h
+  · exact deactivateCS_mem hw hx h
+
+theorem deactivate_mem {ne : NumEnv} {d : Decl} {x y : Config} (hw : d.wf = true)
+    (hx : dimsAll d.hps x = true) (h : deactivate ne d x = some y) : memSpace d y = true := by
+  unfold deactivate at h
+  cases hE : deactivateE ne d x with
+  | error e => rw [hE] at h; cases h
+  | ok z =>
+    rw [hE] at h
+    cases h
+    exact deactivateE_mem hw hx hE
 
 /-- admissible transformed row: the numeric-ordinal slices (after the clip) hold choices -/
 def Tok (ne : NumEnv) (d : Decl) (t : List Slice) : Prop :=
@@ -591,5 +608,96 @@ theorem fillInactive_memAll : ∀ {hps : List Hp} {s : List (Option Val)} {act :
   | [], _ :: _, _, _, h, _ => by simp [fillInactive] at h
   | _ :: _, [], _, _, h, _ => by simp [fillInactive] at h
   | _ :: _, _ :: _, [], _, _, h => by simp [sampleOK] at h
+
+
+/-! ### members are fixed points of `deactivate_inactive_dimensions` (it does not raise on them) -/
+
+/-- ConfigSpace's rounding leaves the floats of `x` alone (true for what ConfigSpace sampled:
+those values are already rounded to 13 digits) -/
+def RndFix (ne : NumEnv) (x : Config) : Prop := ∀ q, Val.real q ∈ x → ne.rnd q = q
+
+theorem canonAll_self {ne : NumEnv} : ∀ {hps : List Hp} {x : List Val} {act : List Bool},
+    memAll hps x act = true → RndFix ne x → canonAll ne hps x act = some x
+  | [], [], [], _, _ => rfl
+  | h :: hs, v :: vs, a :: as, hm, hr => by
+    simp only [memAll, Bool.and_eq_true] at hm
+    have ih := canonAll_self (ne := ne) hm.2 (fun q hq => hr q (List.mem_cons_of_mem _ hq))
+    simp only [canonAll, ih]
+    cases a
+    · have : canon h.dim = some v := by simpa using hm.1
+      simp [this]
+    · cases hd : h.dim <;> cases v <;> simp
+      rename_i lo hi p q
+      exact hr q List.mem_cons_self
+  | [], [], _ :: _, h, _ => by simp [memAll] at h
+  | [], _ :: _, _, h, _ => by simp [memAll] at h
+  | _ :: _, [], _, h, _ => by simp [memAll] at h
+  | _ :: _, _ :: _, [], h, _ => by simp [memAll] at h
+
+theorem memDim_legal {d : Dim} {v : Val} (h : memDim d v = true) : legalDim d v = true := by
+  cases d with
+  | int lo hi p =>
+    cases v <;> simp [memDim] at h
+    rename_i i
+    simp [legalDim, Val.toRat?, h.1, h.2, Rat.floor_intCast]
+  | real lo hi p =>
+    cases v <;> simp [memDim] at h
+    simp [legalDim, Val.toRat?, h.1, h.2]
+  | cat cs =>
+    simp only [memDim, decide_eq_true_eq] at h
+    simp only [legalDim, List.any_eq_true]
+    exact ⟨v, h, pyEq_refl v⟩
+
+theorem memAll_legalAll : ∀ {hps : List Hp} {x : List Val} {act : List Bool},
+    memAll hps x act = true → legalAll hps x act = true
+  | [], [], [], _ => rfl
+  | h :: hs, v :: vs, a :: as, hm => by
+    simp only [memAll, Bool.and_eq_true] at hm
+    simp only [legalAll, Bool.and_eq_true]
+    refine ⟨?_, memAll_legalAll hm.2⟩
+    cases a
+    · simpa using hm.1
+    · simp only [if_true] at hm ⊢
+      exact memDim_legal hm.1
+  | [], [], _ :: _, h => by simp [memAll] at h
+  | [], _ :: _, _, h => by simp [memAll] at h
+  | _ :: _, [], _, h => by simp [memAll] at h
+  | _ :: _, _ :: _, [], h => by simp [memAll] at h
+
+theorem zip_self_no_new (l : List Bool) : (List.zip l l).any (fun p => !p.1 && p.2) = false := by
+  induction l with
+  | nil => rfl
+  | cons a t ih => cases a <;> simp [ih]
+
+/-- **a member of the declared space passes `deactivate_inactive_dimensions` unchanged** (after
+the fix: in particular when the placeholder of an inactive hyperparameter would make a forbidden
+clause true) -/
+theorem deactivateCS_member {ne : NumEnv} {d : Decl} {x : Config} (hx : memSpace d x = true)
+    (hr : RndFix ne x) : deactivateCS ne d x = .ok x := by
+  unfold memSpace at hx
+  simp only [Bool.and_eq_true, Bool.not_eq_true'] at hx
+  unfold deactivateCS
+  simp only
+  rw [canonAll_self hx.1 hr]
+  simp only
+  rw [zip_self_no_new]
+  simp only [Bool.false_eq_true, if_false]
+  rw [canonAll_self (ne := { ne with rnd := fun q => q }) hx.1 (fun q _ => rfl)]
+  simp only
+  rw [memAll_legalAll hx.1, hx.2]
+  rfl
+
+theorem deactivateE_member {ne : NumEnv} {d : Decl} {x : Config} (hx : memSpace d x = true)
+    (hr : RndFix ne x) : deactivateE ne d x = .ok x := by
+  unfold deactivateE
+  split
+  · rfl
+  · exact deactivateCS_member hx hr
+
+theorem deactivate_member {ne : NumEnv} {d : Decl} {x : Config} (hx : memSpace d x = true)
+    (hr : RndFix ne x) : deactivate ne d x = some x := by
+  unfold deactivate
+  rw [deactivateE_member hx hr]
+  rfl
 
 end DH.Mem
